@@ -142,7 +142,20 @@ def _gen_op(r, model):
         return (['del', te, key], 'del') if r.random() < 0.6 else (['call', 'remove', [te, key], gen.sugar(r, 2)], 'remove')
     if k == 'grow':
         g = weighted(r, [('xdouble', 5), ('xplus', 2), ('sdouble', 4), ('split', 3), ('mapstr', 1.5), ('matchall', 1.5),
-                         ('reduce', 1.5), ('bigplus', 2), ('bigshort', 2), ('nestop', 1), ('xmul', 2.5)])
+                         ('reduce', 1.5), ('bigplus', 2), ('bigshort', 2), ('nestop', 1), ('xmul', 2.5), ('litstr', 1.5)])
+        if g == 'litstr':
+            # what the source spells out literally is part of the bound: a long literal is exactly as long as its
+            # spelling (characters with longer compatibility / canonical decompositions, ligatures, combining marks)
+            ch = r.choice(['x', '\u00e9', 'e\u0301', '\ufdfa', '\ufb03', '\u3300', '\u2126', '\u00a0', '\u1e9e', '\u0132'])
+            lit = ['str', ch * r.choice([30, 700, 1100])]
+            how = r.choice(['map', 'split', 'len', 'list'])
+            if how == 'map':
+                return ['assign', 'y', ['call', 'map', [lit, ['lambda', ['c'], ['name', 'c']]], gen.sugar(r, 2)]], 'grow'
+            if how == 'split':
+                return ['assign', 'y', ['call', 'split', [lit, ['str', '']], 'plain']], 'grow'
+            if how == 'list':
+                return ['assign', 'y', ['list', [lit, ['call', 'len', [lit], 'plain']]]], 'grow'
+            return ['assign', 'y', ['call', 'len', [lit], gen.sugar(r, 1)]], 'grow'
         if g == 'xdouble':
             if r.random() < 0.4:
                 return ['block', [['short', 'x', '+=', ['name', 'x']]] * 4], 'grow'
